@@ -11,6 +11,7 @@ import common  # noqa: E402
 MODULES = {
     "C06": "cassette", "C14": "cassette",
     "C07": "disk", "C08": "disk", "C15": "disk",
+    "C01": "asm", "C12": "asm",
 }
 
 
